@@ -132,7 +132,7 @@ func (e *Enc) sliceInstr(fr *Frame, x *ssa.Slice) {
 }
 
 func (e *Enc) boundsObl(fr *Frame, at ssa.Instruction, ok T, what string) {
-	if e.fc != nil && e.fc.NoPanic {
+	if e.fc != nil && (e.fc.NoPanic || e.fc.BoundsSafe) {
 		anchor := e.srcTextOr(at.Pos(), valName(at))
 		e.addObligation("bounds", anchor, fr.curReach, ok, what+" at "+anchor)
 	}
